@@ -87,6 +87,14 @@ namespace chaiscript {
     inline thread_local std::size_t last_parse_input_size = 0;
     /// same, but only recorded while it holds the sentinel size_t(-1) the harness stores before a call: the outermost parse()
     inline thread_local std::size_t first_parse_input_size = 0;
+    /// 0: normal; 1: bypass the per-node lookup hints (always resolve identifiers by name); 2: audit (normal path, but
+    /// every lookup is also resolved by name and compared with what the hint designates; counters below)
+    inline std::atomic<int> lookup_cache_mode{0};
+    inline std::atomic<std::size_t> hint_fills{0};                   ///< lookups without a hint yet
+    inline std::atomic<std::size_t> hint_agree{0};                   ///< hint designates the by-name answer
+    inline std::atomic<std::size_t> hint_stale_recovered{0};         ///< hinted slot missing / other name: re-resolved by name
+    inline std::atomic<std::size_t> hint_disagree_nearer_local{0};   ///< hinted slot holds the name, but a nearer binding exists now
+    inline std::atomic<std::size_t> hint_disagree_global_shadowed{0};///< hint says global/function, but a local of that name exists now
   } // namespace verif
 } // namespace chaiscript
 #endif
